@@ -19,6 +19,7 @@ same (stubbed) draws.
 from __future__ import annotations
 
 import math
+import time
 
 import torch
 import z3
@@ -33,6 +34,7 @@ from .c07 import with_draws
 
 XMAX = 20.0
 PMIN = 0.05
+KINK = 1e-3      # forward-pass margin from sqrt(0) and division by 0
 
 
 # ----------------------------------------------------------------------------------------------------------------
@@ -49,8 +51,8 @@ def stages():
     from kaira.constraints.antenna import PerAntennaPowerConstraint
     S_ = {}
 
-    def add(name, mk, shapes, cplx=(False,), quick=True, domain="power"):
-        S_[name] = dict(mk=mk, shapes=shapes, cplx=cplx, quick=quick, domain=domain)
+    def add(name, mk, shapes, cplx=(False,), quick=True, domain="power", xmax=XMAX):
+        S_[name] = dict(mk=mk, shapes=shapes, cplx=cplx, quick=quick, domain=domain, xmax=xmax)
     add("AWGN(avg_noise_power=0.1)", lambda: AWGNChannel(avg_noise_power=0.1), [(3,), (2, 2)], (False, True))
     add("AWGN(snr_db=10)", lambda: AWGNChannel(snr_db=10.0), [(3,), (2, 2)], (False, True))
     add("Laplacian(scale=0.5)", lambda: LaplacianChannel(scale=0.5), [(3,)], (False, True))
@@ -63,13 +65,14 @@ def stages():
     add("RicianFading(K=1,Tc=2,snr_db=10)", lambda: RicianFadingChannel(k_factor=1.0, coherence_time=2, snr_db=10.0), [(2,)], (False,), quick=False)
     add("Nonlinear(x-0.1x^3)", lambda: NonlinearChannel(cubic), [(3,), (2, 2)], (False, True))
     add("Nonlinear(x-0.1x^3,cartesian)", lambda: NonlinearChannel(cubic, complex_mode="cartesian"), [(2,)], (True,))
-    add("Nonlinear(x-0.1x^3,noise snr_db=10)", lambda: NonlinearChannel(cubic, add_noise=True, snr_db=10.0), [(2,)], (False, True))
+    add("Nonlinear(x-0.1x^3,noise snr_db=10)", lambda: NonlinearChannel(cubic, add_noise=True, snr_db=10.0), [(2,)], (False, True), xmax=1.5)
     add("Nonlinear(x-0.1x^3,noise P=0.1)", lambda: NonlinearChannel(cubic, add_noise=True, avg_noise_power=0.1), [(3,)], (False,), quick=False)
     add("TotalPower(2.0)", lambda: TotalPowerConstraint(total_power=2.0), [(3,), (1, 3), (2, 2), (2, 1, 2)], (False, True))
     add("AveragePower(0.5)", lambda: AveragePowerConstraint(average_power=0.5), [(3,), (1, 3), (2, 2), (2, 1, 2)], (False, True))
     add("PerAntennaPower(uniform=1.0)", lambda: PerAntennaPowerConstraint(uniform_power=1.0), [(1, 2, 2), (2, 2, 2)], (False, True))
-    add("PeakAmplitude(1.0)", lambda: PeakAmplitudeConstraint(max_amplitude=1.0), [(3,), (2, 2)], (False, True), domain="offkink")
-    add("PAPR(3.0)", lambda: PAPRConstraint(max_papr=3.0), [(3,), (2, 2)], (False,), domain="power")
+    add("PeakAmplitude(1.0)", lambda: PeakAmplitudeConstraint(max_amplitude=1.0), [(3,), (2, 2)], (False,), domain="offkink")   # torch.clamp rejects complex tensors
+    add("PAPR(3.0)", lambda: PAPRConstraint(max_papr=3.0), [(2, 2)], (False,), domain="power")     # never clips two samples: the no-clipping path
+    add("PAPR(2.0)", lambda: PAPRConstraint(max_papr=2.0), [(3,)], (False,), quick=False, domain="power")   # clipping rounds: branch decisions are NRA (stretch)
     return S_
 
 
@@ -80,9 +83,13 @@ def all_items():
             for cplx in s["cplx"]:
                 if not s["quick"] and tier(True, False):
                     continue
+                if tier(True, False) and cplx and name.startswith("Nonlinear(x-0.1x^3,noise snr_db=10)"):
+                    continue      # open (stretch) in the complex case: thorough tier only
                 out.append(dict(type="grad", stage=name, shape=list(shape), complex=cplx,
                                 config=f"grad:{name} on {'complex' if cplx else 'real'}{tuple(shape)}"))
     for name in pipelines():
+        if tier(True, False) and any(k in name for k in STRETCH_PIPE):
+            continue          # open (stretch) items run in the thorough tier only
         out.append(dict(type="pipeline", pipeline=name, config=f"grad-pipeline:{name}"))
     out.append(dict(type="grad-selftest", config="grad-selftest"))
     return out
@@ -102,10 +109,15 @@ def xnames(n, cplx):
     return [f"x{i}r" for i in range(n)] + [f"x{i}i" for i in range(n)] if cplx else [f"x{i}" for i in range(n)]
 
 
-def domain(shape, cplx, kind):
+def domain(shape, cplx, kind, xmax=XMAX):
     n = numel(shape)
     names = xnames(n, cplx)
-    A = [z3.And(z3.Real(nm) >= -XMAX, z3.Real(nm) <= XMAX) for nm in names]
+    A = [z3.And(z3.Real(nm) >= -xmax, z3.Real(nm) <= xmax) for nm in names]
+    if kind == "offkink":
+        # clipping constraints: stay 1% away from the clipping level (the kink of clamp)
+        for nm in names:
+            v = z3.Real(nm)
+            A.append(z3.Or(v >= 1.01, z3.And(v <= 0.99, v >= -0.99), v <= -1.01))
     # every batch item (first dimension when there are >= 2) carries non-negligible power: away from the zero-signal branch
     rows = shape[0] if len(shape) > 1 else 1
     per = n // rows
@@ -157,13 +169,11 @@ def sym_jacobians(x, y):
             gs = elems(g) if g is not None else [0.0] * n_in
         else:
             gs = [0.0] * n_in
-        row_a = real_parts([S.tocx(v) for v in gs]) if x.dtype.is_complex else list(gs)
-        memo_rows = []
-        for (_, aid) in xatoms:
-            memo_rows.append(S.deriv(yc, aid))
-        J_auto.append(row_a)
-        J_true.append(memo_rows)
-    return J_auto, J_true
+        J_auto.append(real_parts([S.tocx(v) for v in gs]) if x.dtype.is_complex else list(gs))
+    nb = len(S.ENV.defined)          # definedness conditions up to here: forward pass + autograd's backward formulas
+    for k, yc in enumerate(ycomp):
+        J_true.append([S.deriv(yc, aid) for (_, aid) in xatoms])
+    return J_auto, J_true, nb
 
 
 def run_stage(item, tl, mutate=None):
@@ -174,14 +184,23 @@ def run_stage(item, tl, mutate=None):
     if mutate:
         stage = mutate(stage)
     dtype = torch.complex128 if cplx else torch.float64
-    names, A = domain(shape, cplx, spec["domain"])
+    names, A = domain(shape, cplx, spec["domain"], spec["xmax"])
 
     def run(ctx):
         x = fresh_reals("x", shape, dtype)
         x.requires_grad_(True)
-        y = stage(x)
-        Ja, Jt = sym_jacobians(x, y)
-        return dict(Ja=Ja, Jt=Jt, rg=bool(y.requires_grad), ndef=len(ctx.defined))
+        S.ENV.kink_margin = KINK          # forward pass: stay a margin away from sqrt(0) and x/0 (the kinks of the stage itself)
+        S.ENV.inv_mode = True             # quotients as products with reciprocal variables: both Jacobians land in one polynomial ring
+        try:
+            try:
+                y = stage(x)
+            finally:
+                S.ENV.kink_margin = 0
+            nf = len(ctx.defined)
+            Ja, Jt, nb = sym_jacobians(x, y)
+        finally:
+            S.ENV.inv_mode = False
+        return dict(Ja=Ja, Jt=Jt, rg=bool(y.requires_grad), nf=nf, nb=nb)
     obs = []
     try:
         paths = sym_paths(run, A, tl, max_paths=tier(24, 64), state=(stage,))
@@ -190,8 +209,11 @@ def run_stage(item, tl, mutate=None):
                    note="outside the claim: the stage uses an operation with no algebraic encoding", **tl.take())]
     st_g, st_f, viol_g, viol_f = "holds", "holds", None, None
     npaths = nq = 0
+    lost = 0.0
     for ctx, R in paths:
         npaths += 1
+        if getattr(ctx, "tainted", False) and st_g == "holds":
+            st_g = st_f = "inconclusive"      # float() of a symbolic real on this path (see sym.nanbox): never 'holds'
         defined = [d for d in ctx.defined]
         # one query per Jacobian entry, each on the cone of influence of that entry
         for ra, rt in zip(R["Ja"], R["Jt"]):
@@ -199,16 +221,30 @@ def run_stage(item, tl, mutate=None):
                 e = S.zbool(S.ne(a, t))
                 if z3.is_false(e) or viol_g is not None:
                     continue
+                if lost > 2 * tier(20, 90):
+                    st_g = "inconclusive"      # open anyway: do not spend the budget of every remaining entry
+                    continue
                 nq += 1
+                t0 = time.time()
                 st, model = decide_nra_sliced(ctx, e, defined, budget_s=tier(20, 90))
+                if st == "inconclusive":
+                    lost += time.time() - t0
                 if st == "violated":
+                    # prefer a witness with a material difference (replayable against finite differences)
+                    d = S.sub(a, t)
+                    st2, m2 = decide_nra_sliced(ctx, z3.Or(S.zbool(S.gt(d, 1e-2)), S.zbool(S.lt(d, -1e-2))), defined, budget_s=20)
+                    if st2 == "violated":
+                        model = m2
                     w = witness_of(model, ctx, names)
                     rep, detail = replay_stage(item, w, mutate)
                     viol_g = dict(what=f"autograd's Jacobian differs from the derivative of the stage's own output: {detail}", witness=w, replay={"reproduced": rep})
                 elif st == "inconclusive" and st_g == "holds":
                     st_g = st
-        if defined:
-            st, model = decide_nra(ctx, z3.Not(zand(defined)), budget_s=tier(20, 60))
+        fwd, bwd = defined[:R["nf"]], defined[R["nf"]:R["nb"]]
+        for cond in bwd:
+            if viol_f is not None:
+                break
+            st, model = decide_nra_sliced(ctx, z3.Not(cond), fwd, budget_s=tier(20, 60))
             if st == "violated" and viol_f is None:
                 w = witness_of(model, ctx, names)
                 rep, detail = replay_stage(item, w, mutate, finite=True)
@@ -216,20 +252,24 @@ def run_stage(item, tl, mutate=None):
             elif st == "inconclusive" and st_f == "holds":
                 st_f = st
     q = dict(query="exists x in domain, draws: J_autograd[i][j] != d y_i / d x_j", shape=list(shape), complex=cplx, paths=npaths, entry_queries=nq,
-             domain=f"|x| <= {XMAX}, power of every batch item >= {PMIN}")
+             domain=f"|x| <= {spec['xmax']}, power of every batch item >= {PMIN}, forward sqrt radicands / divisors >= {KINK}" + ("; |x| at least 1% away from the clipping level" if spec["domain"] == "offkink" else ""))
     stretch = item["stage"].startswith(STRETCH)
+    # a model that does not reproduce in float64 (over-approximated cos/sin variables, differences below the
+    # finite-difference resolution) is reported as an open stretch item, never as a violation and never as 'holds'
     if viol_g:
-        obs.append(ob("autograd gradient = derivative of the computed function", config, "violated", **viol_g, **tl.take()))
+        obs.append(ob("autograd gradient = derivative of the computed function", config, "violated", stretch=not viol_g["replay"]["reproduced"], **viol_g, **tl.take()))
     else:
         obs.append(ob("autograd gradient = derivative of the computed function", config, st_g, sample=q, stretch=stretch and st_g != "holds", **tl.take()))
     if viol_f:
-        obs.append(ob("gradient finite on the domain", config, "violated", **viol_f))
+        obs.append(ob("gradient finite on the domain", config, "violated", stretch=not viol_f["replay"]["reproduced"], **viol_f))
     else:
         obs.append(ob("gradient finite on the domain", config, st_f, stretch=stretch and st_f != "holds"))
     return obs
 
 
-STRETCH = ("PAPR", "PhaseNoise")
+STRETCH = ("PAPR", "PhaseNoise", "Nonlinear(x-0.1x^3,noise snr_db=10)")
+STRETCH_PIPE = ("AveragePower(0.5) -> Laplacian", "AveragePower(1) -> AWGN(snr", "Nonlinear(cubic)")   # thorough tier only
+# every pipeline obligation that the NRA portfolio leaves open is reported as stretch (4 symbolic weights + draws + nested sqrt)
 
 
 def witness_of(model, ctx, names):
@@ -363,7 +403,12 @@ def run_pipeline(item, tl, mutate=None):
         model = build_pipeline(name, W, mutate)
         holder["m"] = model
         x = torch.tensor(X_IN, dtype=torch.float64)
-        out = model(x)
+        S.ENV.kink_margin = KINK
+        S.ENV.inv_mode = True
+        try:
+            out = model(x)
+        finally:
+            S.ENV.kink_margin = 0
         L = (out * torch.tensor(C_LOSS, dtype=torch.float64)).sum()
         Lval = elems(L.detach())[0]
         if L.requires_grad:
@@ -372,6 +417,7 @@ def run_pipeline(item, tl, mutate=None):
         else:
             gs = [0.0] * 4
         ds = [S.deriv(Lval, S.atom_id(v)) for v in ws]
+        S.ENV.inv_mode = False
         return dict(gs=gs, ds=ds)
     try:
         paths = sym_paths(run, A, tl, max_paths=32)
@@ -380,12 +426,18 @@ def run_pipeline(item, tl, mutate=None):
     st_g, viol, reach = "holds", None, [False] * 4
     for ctx, R in paths:
         defined = list(ctx.defined)
+        if getattr(ctx, "tainted", False) and st_g == "holds":
+            st_g = "inconclusive"
         for a, t in zip(R["gs"], R["ds"]):
             e = S.zbool(S.ne(a, t))
             if z3.is_false(e) or viol is not None:
                 continue
             st, model = decide_nra_sliced(ctx, e, defined, budget_s=tier(40, 150))
             if st == "violated":
+                d = S.sub(a, t)
+                st2, m2 = decide_nra_sliced(ctx, z3.Or(S.zbool(S.gt(d, 1e-2)), S.zbool(S.lt(d, -1e-2))), defined, budget_s=20)
+                if st2 == "violated":
+                    model = m2
                 w = {n: float(S.zval(model, z3.Real(n))) for n in wn}
                 w["draws"] = [float(S.zval(model, g)) for k, g in ctx.rng_log]
                 rep, detail = replay_pipeline(item, w, mutate)
@@ -400,10 +452,11 @@ def run_pipeline(item, tl, mutate=None):
                     s2, _ = decide_nra_sliced(ctx, e, defined, budget_s=20)
                     reach[k] = s2 == "violated"     # 'violated' of the negation = a point with non-zero gradient exists
     obs = []
+    stretch = True
     if viol:
-        obs.append(ob("loss gradient = derivative through constraint and channel", config, "violated", **viol, **tl.take()))
+        obs.append(ob("loss gradient = derivative through constraint and channel", config, "violated", stretch=not viol["replay"]["reproduced"], **viol, **tl.take()))
     else:
-        obs.append(ob("loss gradient = derivative through constraint and channel", config, st_g, sample=dict(query="exists W, draws: autograd dL/dW[k] != dL/dW[k] of the computed loss", W="2x2 symbolic", x=X_IN), **tl.take()))
+        obs.append(ob("loss gradient = derivative through constraint and channel", config, st_g, stretch=stretch and st_g != "holds", sample=dict(query="exists W, draws: autograd dL/dW[k] != dL/dW[k] of the computed loss", W="2x2 symbolic", x=X_IN), **tl.take()))
     if all(reach):
         obs.append(ob("loss gradient reaches every encoder parameter", config, "holds", sample=dict(query="for each k: exists W, draws with autograd dL/dW[k] != 0 (sat expected)", reached=reach)))
     elif viol is None and st_g == "holds":
@@ -412,7 +465,7 @@ def run_pipeline(item, tl, mutate=None):
         obs.append(ob("loss gradient reaches every encoder parameter", config, "violated", what=f"autograd's dL/dW is identically zero for parameters {[k for k in range(4) if not reach[k]]}",
                       witness=w, replay={"reproduced": replay_pipeline(item, w, mutate, zero=True)[0]}))
     else:
-        obs.append(ob("loss gradient reaches every encoder parameter", config, "inconclusive" if viol is None else "violated",
+        obs.append(ob("loss gradient reaches every encoder parameter", config, "inconclusive" if viol is None else "violated", stretch=(stretch if viol is None else not viol["replay"]["reproduced"]),
                       what="" if viol is None else "see the gradient clause", witness=viol["witness"] if viol else None, replay=viol["replay"] if viol else None))
     return obs
 
